@@ -493,29 +493,29 @@ OMITTED_MEANS = {"suppress_response": False, "compression_method": 0, "encryptio
 
 
 def omit_defaults(method, args):
-    """the same call with the trailing arguments left out whose given value is what leaving them out means"""
+    """the same call as keyword arguments, with every optional argument left out whose given value is what leaving it out means
+    -> (kwargs, number of arguments left out)"""
     import inspect
 
     from gallia.services.uds.core.client import UDSClient
 
     names = [p for p in inspect.signature(getattr(UDSClient, method)).parameters if p not in ("self", "config")]
-    args = list(args)
-    while args and len(args) <= len(names):
-        n = names[len(args) - 1]
-        if n in OMITTED_MEANS and type(args[-1]) is type(OMITTED_MEANS[n]) and args[-1] == OMITTED_MEANS[n]:
-            args.pop()
+    kw, dropped = {}, 0
+    for n, a in zip(names, args):
+        if n in OMITTED_MEANS and type(a) is type(OMITTED_MEANS[n]) and a == OMITTED_MEANS[n]:
+            dropped += 1
         else:
-            break
-    return args
+            kw[n] = a
+    return kw, dropped
 
 
-def client_call(loop, method, args):
+def client_call(loop, method, args, kwargs=None):
     from gallia.services.uds.core.client import UDSClient
 
     t = _Transport()
     c = UDSClient(t, timeout=1.0, max_retry=0)
     try:
-        loop.run_until_complete(getattr(c, method)(*args))
+        loop.run_until_complete(getattr(c, method)(*args, **(kwargs or {})))
     except _Captured:
         pass
     except Exception as e:  # noqa: BLE001
@@ -539,6 +539,10 @@ def size_of(p):
         elif isinstance(x, list):
             n += 4 + size_of(x)
     return n
+
+
+def jparams_kw(d):
+    return {k: ({"hex": x.hex()} if isinstance(x, (bytes, bytearray)) else x) for k, x in d.items()}
 
 
 def jparams(p):
@@ -806,15 +810,15 @@ def eval_client(ctx, loop, calls, count=False):
         F = Findings()
         fs.append(F)
         st, val = client_call(loop, meth, args)
-        short = omit_defaults(meth, args)
-        if len(short) < len(args):
-            st2, val2 = client_call(loop, meth, short)
+        short, n_dropped = omit_defaults(meth, args)
+        if n_dropped:
+            st2, val2 = client_call(loop, meth, (), short)
             if count:
                 ctx.kind("client:optional-arguments-omitted")
             if (st2, val2) != (st, val):
-                F.add(f"client-default:{meth}:{len(args) - len(short)}-omitted", f"UDSClient.{meth}({short!r:.80}) - optional arguments left out - hands {val2[:60]} to the "
+                F.add(f"client-default:{meth}:{n_dropped}-omitted", f"UDSClient.{meth}(**{jparams_kw(short)!r:.90}) - optional arguments left out - hands {val2[:60]} to the "
                       f"transport, with the arguments spelled out ({args!r:.80}) it hands {val[:60]}",
-                      {"direction": "client", "method": meth, "args": jparams(short), "varied": "defaults", "_size": size_of(short)},
+                      {"direction": "client", "method": meth, "kwargs": jparams_kw(short), "varied": "defaults", "_size": size_of(list(short.values()))},
                       impl={"status": st2, "value": val2}, model={"status": st, "value": val}, site=f"UDSClient.{meth} (default arguments)")
         if count:
             ctx.ev()
